@@ -318,14 +318,15 @@ def setSetCookies (cs : List (List (Str × Option Str))) : List Str := cs.map fo
 private def scSpecials : List Str := [S "expires", S "path"]
 
 /-- what a Set-Cookie header can carry for one name / attribute: the key has no `;` `=` `,` and no leading whitespace; a key without
-    value is non-empty; a value that the formatter leaves unquoted (because the key is `expires`/`path`) has no `;` `,`, does not
-    start with a quote, and an `expires` value is longer than 3 characters (the reader's heuristic) -/
+    value is non-empty; a value that the formatter leaves unquoted (because the key is `expires`/`path`) has no `;` `,` and does not
+    start with a quote.  (Since e0e81be4a/8cc872297 the reader's read-on heuristic for `expires` only fires at a comma, so no
+    length condition is needed any more.) -/
 def RepSc (e : Str × Option Str) : Prop :=
   (∀ x ∈ e.1, isSemiEqComma x = false) ∧ lstrip e.1 = e.1 ∧
   match e.2 with
   | none => e.1 ≠ []
   | some v => scSpecials.contains (lower e.1) = true →
-      ((∀ x ∈ v, isSemiComma x = false) ∧ v.head? ≠ some 34 ∧ (lower e.1 = S "expires" → 3 < v.length))
+      ((∀ x ∈ v, isSemiComma x = false) ∧ v.head? ≠ some 34)
 
 private def fmtSc (e : Str × Option Str) : Str := fmtPair scSpecials e.1 e.2
 
@@ -376,8 +377,7 @@ private theorem sc_step_fmt (st : ScState) (pre : Str) (e : Str × Option Str) (
     rcases ht with rfl | ⟨t, rfl⟩ <;> simp [hne]
   | some v =>
     have hv' : scSpecials.contains (lower k) = true →
-        ((∀ x ∈ v, isSemiComma x = false) ∧ v.head? ≠ some 34 ∧ (lower k = S "expires" → 3 < v.length)) := hv
-    have hexp_sp : lower k = S "expires" → scSpecials.contains (lower k) = true := by intro h; rw [h]; decide
+        ((∀ x ∈ v, isSemiComma x = false) ∧ v.head? ≠ some 34) := hv
     have hfmt : fmtSc (k, some v) =
         if (!(scSpecials.contains (lower k)) && hasSpecial v) = true then k ++ 61 :: 34 :: (escape v ++ [34]) else k ++ 61 :: v := rfl
     have hunq : (∀ x ∈ v, isSemiComma x = false) → v.head? ≠ some 34 → readValue isSemiComma (v ++ tail) = (v, tail) := by
@@ -393,36 +393,33 @@ private theorem sc_step_fmt (st : ScState) (pre : Str) (e : Str × Option Str) (
         rcases ht with rfl | ⟨t, rfl⟩
         · simpa using readUntil_all isSemiComma (c :: v') hall
         · exact readUntil_stop isSemiComma (c :: v') 59 t hall (by decide)
-    have hval : ∃ X, fmtSc (k, some v) = k ++ 61 :: X ∧ readValue isSemiComma (X ++ tail) = (v, tail) ∧
-        ¬ (lower k = S "expires" ∧ v.length ≤ 3) := by
+    have hval : ∃ X, fmtSc (k, some v) = k ++ 61 :: X ∧ readValue isSemiComma (X ++ tail) = (v, tail) := by
       rw [hfmt]
       cases hsp : scSpecials.contains (lower k) <;> cases hhs : hasSpecial v
       · -- ordinary key, harmless value: unquoted
         have hh := notSpecial' v hhs
-        refine ⟨v, by simp, hunq (fun x hx => (hh x hx).2) ?_, ?_⟩
-        · cases v with
-          | nil => simp
-          | cons c v' => simp only [List.head?_cons, ne_eq, Option.some.injEq]; exact (hh c (by simp)).1
-        · intro ⟨hex, _⟩
-          have := hexp_sp hex
-          rw [hsp] at this; cases this
+        refine ⟨v, by simp, hunq (fun x hx => (hh x hx).2) ?_⟩
+        cases v with
+        | nil => simp
+        | cons c v' => simp only [List.head?_cons, ne_eq, Option.some.injEq]; exact (hh c (by simp)).1
       · -- ordinary key, special value: quoted
-        refine ⟨34 :: (escape v ++ [34]), by simp, ?_, ?_⟩
-        · have : (34 :: (escape v ++ [34])) ++ tail = 34 :: (escape v ++ 34 :: tail) := by simp
-          rw [this]
-          simp [readValue, readQuoted_escape]
-        · intro ⟨hex, _⟩
-          have := hexp_sp hex
-          rw [hsp] at this; cases this
-      · obtain ⟨hall, hhead, hexp⟩ := hv' hsp
-        exact ⟨v, by simp, hunq hall hhead, fun ⟨hex, hlen⟩ => by have := hexp hex; omega⟩
-      · obtain ⟨hall, hhead, hexp⟩ := hv' hsp
-        exact ⟨v, by simp, hunq hall hhead, fun ⟨hex, hlen⟩ => by have := hexp hex; omega⟩
-    obtain ⟨X, hX, hread, hnoexp⟩ := hval
+        refine ⟨34 :: (escape v ++ [34]), by simp, ?_⟩
+        have : (34 :: (escape v ++ [34])) ++ tail = 34 :: (escape v ++ 34 :: tail) := by simp
+        rw [this]
+        simp [readValue, readQuoted_escape]
+      · obtain ⟨hall, hhead⟩ := hv' hsp
+        exact ⟨v, by simp, hunq hall hhead⟩
+      · obtain ⟨hall, hhead⟩ := hv' hsp
+        exact ⟨v, by simp, hunq hall hhead⟩
+    obtain ⟨X, hX, hread⟩ := hval
+    -- the value ends at `;` or at the end of the header, never at a comma: the expires read-on does not fire
+    have hnocomma : ¬ (lower k = S "expires" ∧ tail.head? = some 44 ∧ isAlphaStr (strip v) = true) := by
+      intro ⟨_, h44, _⟩
+      rcases ht with rfl | ⟨t, rfl⟩ <;> simp at h44
     have hform : pre ++ fmtSc (k, some v) ++ tail = (pre ++ k) ++ 61 :: (X ++ tail) := by rw [hX]; simp
     unfold scStep
     rw [hform, readUntil_stop isSemiEqComma (pre ++ k) 61 (X ++ tail) hA (by decide)]
-    simp only [hstrip, hread, hnoexp, if_false]
+    simp only [hstrip, hread, hnocomma, if_false]
     rcases ht with rfl | ⟨t, rfl⟩ <;> simp
 
 private theorem scLoop_format (ps : List (Str × Option Str)) : ps ≠ [] → (∀ e ∈ ps, RepSc e) →
@@ -488,6 +485,12 @@ theorem set_cookie_roundtrip (cs : List (List (Str × Option Str))) (hne : ∀ c
 
 example : parseSetCookie (S "sid=abc; Path=/; HttpOnly; expires=Thu, 01 Jan 2030 00:00:00 GMT") =
     [[(S "sid", some (S "abc")), (S "Path", some (S "/")), (S "HttpOnly", none), (S "expires", some (S "Thu, 01 Jan 2030 00:00:00 GMT"))]] := by
+  decide +kernel
+-- the repaired reader (e0e81be4a / 8cc872297): a short Expires value no longer swallows the next attribute, a long weekday stays whole
+example : parseSetCookie (S "a=b; Expires=0; Path=/admin") = [[(S "a", some (S "b")), (S "Expires", some (S "0")), (S "Path", some (S "/admin"))]] ∧
+    parseSetCookie (S "sid=; Expires=Thursday, 01-Jan-70 00:00:00 GMT") =
+      [[(S "sid", some []), (S "Expires", some (S "Thursday, 01-Jan-70 00:00:00 GMT"))]] ∧
+    parseSetCookie (S "a=b; expires=12, c=d") = [[(S "a", some (S "b")), (S "expires", some (S "12"))], [(S "c", some (S "d"))]] := by
   decide +kernel
 -- the guard matters: an unquoted path value holding `;` is split (F-C34f)
 example : parseSetCookie (formatSetCookie [(S "a", some (S "b")), (S "path", some (S "/x;y"))]) ≠
